@@ -29,6 +29,7 @@ def check(run):
     run.floor('C05-SYM', n, 50)
     cd = pc.methods['check_dataframe']
     rfail(run, p, cd)
+    catfirst(run, p, cd)
     prop(run, p, 'C05', DF_ASSERTS)
     state(run, p, pc)
     ordersrc(run, p, cd)
@@ -48,6 +49,28 @@ def check(run):
                      'each entry point that delegates to a sibling comparison forwards every option both of them declare by name '
                      '(precision, sortby, condition, check_* ...): an option accepted but not passed on is silently ignored')
     run.floor('C05-FORWARD', n, 6)
+
+
+def catfirst(run, p, cd):
+    run.rule('C05-CATFIRST', 'categorical columns are turned into plain strings before anything orders the rows: in check_dataframe '
+                             'each frame is passed through replace_cats, unconditionally, before its first sort_values (a categorical '
+                             'sorts by category order, which can differ between two frames holding the same values)')
+    conv = {}
+    for s in cd.node.body:
+        if isinstance(s, ast.Assign) and len(s.targets) == 1 and isinstance(s.targets[0], ast.Name) and isinstance(s.value, ast.Call) \
+                and getattr(s.value.func, 'id', '') == 'replace_cats' and s.value.args and norm(s.value.args[0]) == s.targets[0].id:
+            conv.setdefault(s.targets[0].id, s.lineno)
+    n = 0
+    for x in p.own_nodes(cd):
+        if isinstance(x, ast.Call) and isinstance(x.func, ast.Attribute) and x.func.attr in ('sort_values', 'sort_index') and \
+                isinstance(x.func.value, ast.Name):
+            n += 1
+            nm = x.func.value.id
+            ok = nm in conv and conv[nm] < x.lineno
+            run.ob('C05-CATFIRST', '%s::%s::%s.%s' % (cd.rel, cd.short, nm, x.func.attr), ok,
+                   '%s is sorted at line %d; %s' % (nm, x.lineno, 'replace_cats(%s) at line %d comes first' % (nm, conv[nm]) if ok else
+                                                   'no unconditional %s = replace_cats(%s) precedes it' % (nm, nm)), fn=cd, node=x)
+    run.floor('C05-CATFIRST', n, 2)
 
 
 def rfail(run, p, cd):
